@@ -104,7 +104,16 @@ def handle : List String → String
         | some out =>
           match encSound sp p out with
           | some why => s!"specviol encoder-unsound {why}"
-          | none => if m == res then "ok" else s!"diff enc model={m.take 80} impl={res.take 80}"
+          | none =>
+            if m == res then "ok" else
+            -- the bytes differ from the model encoder's: does the (proved) decoder still read the payload's frame out of them?
+            match sp, encode sp p with
+            | .codec c, some want =>
+              let a := (renderLoop true c out.length (out.length + 8) [out] .eof).trimAscii.toString
+              let b := (renderLoop true c want.length (want.length + 8) [want] .eof).trimAscii.toString
+              if a != b then s!"specviol round trip fails: the encoder's output for payload {payload.take 40} decodes as [{a.take 100}], the payload's frame as [{b.take 100}]"
+              else s!"diff enc model={m.take 80} impl={res.take 80}"
+            | _, _ => s!"diff enc model={m.take 80} impl={res.take 80}"
     | _, _ => "bad-op"
   | "dec" :: spec :: fin :: chunks :: outcome =>
     match parseSpec spec, parseFin fin, (if chunks == "-" then some [] else (chunks.splitOn ",").mapM unhex) with
